@@ -218,8 +218,10 @@ type outcome struct {
 	StateKey string
 	// fetcher search: a removed peer is still listed as an origin (observation)
 	StaleOrigin bool
-	GossipSent  int // messages the gossip routines sent to the peer
-	GossipRuns  int
+	// fetcher search: delayed request calls released in the sequence
+	LateCalls  int
+	GossipSent int // messages the gossip routines sent to the peer
+	GossipRuns int
 }
 
 func (o *outcome) viol(oracle, f string, a ...interface{}) {
